@@ -61,12 +61,14 @@ def run_schedule(texts, schedule):
     gate = Gate()
     Lx = make_sched_lexer(gate)
     results = [None] * len(texts)
+    raw = [None] * len(texts)
     done = [False] * len(texts)
 
     def work(i):
         try:
             p = CParser(lexer=Lx)
-            results[i] = result_key(py_parse_obj(texts[i], "p%d.c" % i, parser=p))
+            raw[i] = py_parse_obj(texts[i], "p%d.c" % i, parser=p)
+            results[i] = result_key(raw[i])
         finally:
             with gate.cv:
                 done[i] = True
@@ -100,7 +102,36 @@ def run_schedule(texts, schedule):
             gate.cv.notify_all()
     for t in ths:
         t.join(timeout=5)
+    # a result must not change after it was returned (no node shared with a parser still running),
+    # and two results must not share node objects
+    seen = {}
+    for i, r in enumerate(raw):
+        if r is None:
+            continue
+        if result_key(r) != results[i]:
+            results[i] = ("MUTATED-AFTER-RETURN", results[i], result_key(r))
+        elif r[0] == "OK":
+            for nid in node_ids(r[1]):
+                if nid in seen and seen[nid] != i:
+                    results[i] = ("SHARES-NODES-WITH", seen[nid])
+                    break
+                seen[nid] = i
     return results
+
+
+def node_ids(ast):
+    out = set()
+    stack = [ast]
+    while stack:
+        n = stack.pop()
+        out.add(id(n))
+        for sl in type(n).__slots__:
+            v = getattr(n, sl, None)
+            vs = v if isinstance(v, list) else [v]
+            for x in vs:
+                if hasattr(x, "children") and hasattr(type(x), "__slots__"):
+                    stack.append(x)
+    return out
 
 
 def free_running(texts, rounds):
@@ -142,7 +173,7 @@ def free_running(texts, rounds):
     return bad
 
 
-SHORT = ["typedef int T; T a;", "int T; int b = T * 2;", "T * x;", "typedef char T; T c", "# 7 \"h.h\"\nint z;", "void f(void) { { typedef int U;",
+SHORT = ["struct a { int x : 3; int : 0; };", "struct b { const unsigned char : 7; char c; };", "typedef int T; T a;", "int T; int b = T * 2;", "T * x;", "typedef char T; T c", "# 7 \"h.h\"\nint z;", "void f(void) { { typedef int U;",
          "int q = @;", "enum E { T }; int v = T;"]
 
 
@@ -188,7 +219,7 @@ def run(ctx):
         n += 1
         if bad:
             ctx.violation("free-running threads: parser/generator %r produced a result different from its solo run" % bad, {"kind": "threads", "texts": texts})
-    ctx.rule("all schedules of length 6 (thorough 9) over two parsers at lexer-call granularity for pairs of short clashing-name inputs (scheduling lexer injected through lexer=, strict hand-off), random schedules for 2-4 longer programs, and free-running threads (4 parsers + generators, switch interval 1e-6 s); every result compared with the solo run")
+    ctx.rule("all schedules of length 6 (thorough 9) over two parsers at lexer-call granularity for pairs of short clashing-name inputs (scheduling lexer injected through lexer=, strict hand-off), random schedules for 2-4 longer programs, and free-running threads (4 parsers + generators, switch interval 1e-6 s); every result compared with the solo run, re-dumped after all parsers have finished (a returned AST must not change afterwards) and checked to share no node object with another parser's result")
     ctx.count(n, nontrivial_n=n)
     ctx.sample({"kind": "schedule", "texts": SHORT[:2], "schedule": [0, 1, 1, 0, 0, 1]})
 
